@@ -68,7 +68,7 @@ class ExtractError(Exception):
         self.log = log
 
 
-def extract(configs, repo=None, target_dir=None, keep=False):
+def extract(configs, repo=None, target_dir=None, keep=False, inline=True):
     """Return {config name: facts dict}. Raises ExtractError if a config does
     not type-check (fail closed)."""
     repo = repo or REPO
@@ -121,6 +121,9 @@ def extract(configs, repo=None, target_dir=None, keep=False):
                     raise ExtractError(name, "stale fact file (run id mismatch)")
                 facts["config"] = name
                 facts["cargo_args"] = cargs
+                if inline:
+                    import inline as _inl
+                    _inl.inline_helpers(facts)
                 results[name] = facts
         finally:
             fcntl.flock(lock, fcntl.LOCK_UN)
